@@ -20,10 +20,15 @@ ASSUMPTIONS = [
     "H (join handle owner) on E's thread (its operations are atomic w.r.t. E's) or on another thread, running one program of "
     "poll / re-poll with a different waker / poll-until-ready / drop / detach / cancel-and-await; K (holder of the cloned "
     "task waker on another thread: wake_by_ref and/or drop)",
-    "schedules enumerated exhaustively for single-operation programs on the executor's thread; otherwise context-bounded: at "
-    "most 2 (thorough: 3) preemptive switches, any number of non-preemptive ones",
-    "outside: Executor::clear / drop (teardown while wakers live elsewhere), the hot/cold intrusive lists and max_interval "
-    "fairness (queue.rs), panics inside the future (catch_unwind path), several tasks, weak memory",
+    "schedules are context-bounded: at most 2 (thorough: 3) preemptive switches, any number of non-preemptive ones "
+    "(thorough adds exhaustive enumeration for two single-operation same-thread programs)",
+    "Task::schedule, Local::schedule and Remote::schedule are interpreted too (cross-thread queue = a push that makes the task "
+    "hot; the driver waker stored in the executor's Shared block = user code that is a scheduling point); teardown "
+    "configurations: Executor::clear (Task::drop, wait_for_scheduling, release) + free of the Shared block at a solver-chosen "
+    "tick; any access to Shared afterwards is a use-after-free",
+    "outside: the hot/cold intrusive lists and max_interval fairness (queue.rs: the starvation clause), panics inside the "
+    "future (catch_unwind path), several tasks, weak memory; that a remote joiner of a task whose executor was torn down is "
+    "not woken is observed but not counted as a violation (the property does not promise it)",
 ]
 
 
@@ -44,35 +49,44 @@ class Plan:
         self.mod = c04_task
         Plan.summaries = c04_task.SUMMARY_TEXT
 
-    def _check(self, mode, program, pb):
+    def _check(self, mode, program, pb, teardown=False):
         from explore import Stats, Failure
-        name = "task.%s.%s%s" % (mode, "+".join(program), "" if pb is None else ".preempt%d" % pb)
+        name = "task.%s.%s%s%s" % (mode, "+".join(program), "" if pb is None else ".preempt%d" % pb,
+                                   ".teardown" if teardown else "")
 
         def body(sd):
             t0 = time.time()
-            n, steps, q, bad = self.mod.explore_schedules(self.T, mode, tuple(program), seed=sd, preempt_bound=pb)
+            n, steps, q, bad = self.mod.explore_schedules(self.T, mode, tuple(program), seed=sd, preempt_bound=pb,
+                                                          teardown=teardown)
             st = Stats()
             st.paths, st.queries, st.obligations, st.discharged = n, steps + q, n, n - (1 if bad else 0)
             st.solver_s = time.time() - t0
             fails = []
             if bad:
-                fails.append(Failure(name, bad[0], {}, [e for e in bad[1] if e[0] != "sched"], [], kind="schedule"))
+                for verdict, trace in [(bad[0], bad[1])] + list(bad[2]):
+                    fails.append(Failure(name, verdict, {}, [e for e in trace if e[0] != "sched"], [], kind="schedule"))
+            st.discharged = n - len(fails)
             return st, fails
         return (name, body, "custom")
 
     def checks(self, tier):
         pb = 2 if tier == "quick" else 3
-        cs = [self._check("local", ["poll_until_ready"], None), self._check("local", ["drop"], None),
-              self._check("local", ["cancel_poll"], None), self._check("local", ["detach"], None),
+        cs = [self._check("local", ["poll_until_ready"], pb), self._check("local", ["drop"], pb),
+              self._check("local", ["cancel_poll"], pb), self._check("local", ["detach"], pb),
               self._check("remote", ["poll_until_ready"], pb), self._check("remote", ["drop"], pb),
               self._check("remote", ["cancel_poll"], pb), self._check("remote", ["detach"], pb),
               self._check("remote", ["poll", "poll_b"], 2), self._check("local", ["poll", "poll_b"], 2),
-              self._check("remote", ["poll", "drop"], 2), self._check("local", ["poll", "drop"], 2)]
+              self._check("remote", ["poll", "drop"], 2), self._check("local", ["poll", "drop"], 2),
+              # executor torn down (Executor::clear + drop) at a solver-chosen tick while the handle / a cloned waker
+              # is still used elsewhere
+              self._check("local", ["detach"], 2, True), self._check("remote", ["drop"], 2, True),
+              self._check("remote", ["poll_until_ready"], 2, True)]
         if tier == "thorough":
             cs += [self._check("remote", ["poll", "poll_b", "poll_until_ready"], 2),
                    self._check("local", ["poll", "poll_b", "poll_until_ready"], 2),
-                   self._check("remote", ["poll", "detach"], 3), self._check("local", ["poll", "detach"], None),
-                   self._check("local", ["poll", "drop"], None)]
+                   self._check("remote", ["poll", "detach"], 3), self._check("local", ["poll", "detach"], 3),
+                   self._check("local", ["detach"], None), self._check("local", ["cancel_poll"], None),
+                   self._check("remote", ["cancel_poll"], 3, True), self._check("local", ["drop"], 3, True)]
         return cs
 
     def encoded(self):
@@ -80,7 +94,7 @@ class Plan:
 
     def bounds(self, tier):
         return {"tasks": 1, "executor_ticks": 4, "waker_clones": 1, "handle_operations": "1-3",
-                "preemption_bound": "none for single-operation same-thread programs, else %d" % (2 if tier == "quick" else 3),
+                "preemption_bound": 2 if tier == "quick" else 3,
                 "memory_model": "sequentially consistent"}
 
     def validate(self, tier):
